@@ -7,4 +7,4 @@ wt=/tmp/seed_alt_$$
 git -C /repo worktree add -q --detach $wt HEAD || exit 2
 trap 'git -C /repo worktree remove --force '$wt' >/dev/null 2>&1' EXIT
 (cd $wt && git apply $p) || { echo APPLY-FAILED; exit 2; }
-for id in "$@"; do VERIF_REPO=$wt ./check $id 2>&1 | grep -E "^(OK|VIOLATION|KNOWN|  failing|  broken)" | cut -c1-400 | head -8; done
+for id in "$@"; do VERIF_REPO=$wt ./check $id 2>&1 | grep -E "^(OK|VIOLATION|KNOWN|  failing|  broken)" | cut -c1-400 | head -12; done
